@@ -517,14 +517,14 @@ fn run(prefix: Vec<usize>, plan: &[Vec<Op>]) -> Result<Exec, RunErr> {
     drop(tx);
     let mut results = vec![Vec::new(); plan.len()];
     for _ in 0..plan.len() {
-        match rx.recv_timeout(Duration::from_secs(10)) {
+        match rx.recv_timeout(Duration::from_secs(120)) {
             Ok((tid, out)) => results[tid] = out,
             Err(_) => {
                 let g = s.m.lock().unwrap_or_else(|e| e.into_inner());
                 if g.deadlock {
                     break;
                 }
-                return Err(RunErr::Stuck(format!("a managed thread did not reach its next scheduling point within 10 s (prefix {prefix:?}, trace so far {:?}): some blocking operation is not owned by the scheduler", g.trace)));
+                return Err(RunErr::Stuck(format!("a managed thread did not reach its next scheduling point within 120 s (prefix {prefix:?}, trace so far {:?}): some blocking operation is not owned by the scheduler", g.trace)));
             }
         }
     }
